@@ -112,6 +112,10 @@ class C04(Check):
         # (b) real runs
         for k in range(60 if self.tier == "quick" else 600):
             runs["real%d" % k] = random_run(rng, tr=2, variants=ALL_VARIANTS, r=rng.randint(2, 5), maxit=rng.choice([1, 3, 11]))
+            if k % 2:
+                # the caller's containers are outputs: whatever shape they arrive in, they leave as the best realization's factors
+                runs["real%d" % k].vshape = rng.choice([1, 2, 3, 4])
+                runs["real%d" % k].ushape = rng.choice([0, 1, 2, 3])
         # scripted runs: the whole selection logic is independent of the numbers -> compared strictly;
         # real runs: the model's numbers are compared under the locality rule (drift), the monitor decides
         scripted = {c: rc for c, rc in runs.items() if rc.script}
@@ -201,6 +205,10 @@ class C04(Check):
                     bad.append("returned in-memberships are not the final ones of realization %d" % bi)
                 if floats(o["aff"]) != w:
                     bad.append("returned affinity is not the final one of realization %d" % bi)
+                want_dims = [str(net.N), str(rc.K)]
+                if o.get("udims") != want_dims or (rc.directed and o.get("vdims") != want_dims):
+                    bad.append("returned membership containers have dimensions %s / %s, the best realization's are %s"
+                               % (o.get("udims"), o.get("vdims") if rc.directed else "-", want_dims))
                 if int(o["iters"][bi]) != len(tr[bi]) - 1:
                     bad.append("reported iterations of realization %d" % bi)
             expect_adopt = []
@@ -572,7 +580,7 @@ class C07(Check):
                 d = dict(rc.__dict__)
                 d["prior"] = priors[pi]
                 d["vshape"] = pi   # the caller's in-membership container also arrives in 5 different shapes
-                d["lprior"] = pi % 4   # and the label container empty, partly right, too long, stale
+                d["lprior"] = [0, 1, 4, 2, 3][pi]   # and the label container empty, partly right, the vertex set in another order, too long, stale
                 d["ushape"] = pi % 4   # and the out-membership container (N*K elements) as N x K, K x N, N*K x 1, 1 x N*K
                 lines.append(RunCase(**d).line("h%d.p%d" % (k, pi)))
                 if rng.random() < 0.5:  # an unrelated call in between
@@ -798,6 +806,10 @@ class C10(Check):
             # zeros and strictly positive values at / below / just above the truncation threshold included
             diag = [rng.choice([rng.random() * 2, rng.random(), rng.random(), 0.0, 5e-7, 1e-6, 9.9e-7, 1.01e-6, 2e-6])
                     for _ in range(K * L)]
+            if rng.random() < 0.3:
+                # affinities on another scale (un-normalised counts, rates per million): memberships then live near the guards
+                sc = rng.choice([1e3, 1e4, 1e5, 1e-3])
+                diag = [x * sc for x in diag]
             full = [0.0] * (K * K * L)
             for a in range(L):
                 for k in range(K):
@@ -835,6 +847,46 @@ class C10(Check):
             if bad:
                 self.violate("assortative-vs-diagonal-general", "; ".join(bad),
                              {"general": g.describe(), "assortative": a.describe(), "case_general": g.line("g"), "case_assortative": a.line("a")})
+        # one sweep from arbitrary states (groups that have almost died out, entries around the guards): the sweep of the
+        # assortative code on (u, v, d) and of the general code on (u, v, diag d) give the same memberships and diagonal
+        sl, smeta = [], {}
+        for n in range(100 if self.tier == "quick" else 1000):
+            directed = rng.random() < 0.5
+            K = rng.randint(2, 4)
+            wt = rng.choice("uuur")
+            recs, L = gen.records(rng, wt=wt)
+            net = ref.PyNet(recs, L, directed, real=(wt == "r"))
+            u, v, d = gen.random_state(rng, net.N, K, L, True, directed, (net.U, net.V) if rng.random() < 0.6 else None)
+            full = [0.0] * (K * K * L)
+            for a in range(L):
+                for k in range(K):
+                    full[a * K * K + k * K + k] = d[a * K + k]
+            sl.append(gen.case_sweep("sw%da" % n, directed, True, K, recs, L, wt, net.N, u, v, d))
+            sl.append(gen.case_sweep("sw%dg" % n, directed, False, K, recs, L, wt, net.N, u, v, full))
+            smeta["sw%d" % n] = (directed, K, L, recs, wt, u, v, d)
+        ios, _ = self.correspond("sweep@diagonal", sl, keys=["loop_u", "loop_v", "loop_w"])
+        for cid, (directed, K, L, recs, wt, u, v, d) in smeta.items():
+            oa, og = ios.get(cid + "a"), ios.get(cid + "g")
+            if not oa or not og or "loop_u" not in oa or "loop_u" not in og:
+                continue
+            self.monitor("sweep pairs examined")
+            self.nontrivial(("sweep", directed, K, str(recs), tuple(u), tuple(d)))
+            wg, wa = floats(og["loop_w"]), floats(oa["loop_w"])
+            bad = []
+            if not ref.vec_close(floats(og["loop_u"]), floats(oa["loop_u"]), 1e-10, 1e-300):
+                bad.append("out-memberships differ")
+            if directed and not ref.vec_close(floats(og["loop_v"]), floats(oa["loop_v"]), 1e-10, 1e-300):
+                bad.append("in-memberships differ")
+            dg = [wg[a2 * K * K + k * K + k] for a2 in range(L) for k in range(K)]
+            if not ref.vec_close(dg, wa, 1e-10, 1e-300):
+                bad.append("diagonal affinities differ: general %s, assortative %s" % (dg[:4], wa[:4]))
+            if any(wg[a2 * K * K + q * K + k] != 0 for a2 in range(L) for k in range(K) for q in range(K) if k != q):
+                bad.append("an off-diagonal affinity became non-zero")
+            if bad:
+                self.violate("sweep-assortative-vs-diagonal-general", "one sweep from the same state: " + "; ".join(bad),
+                             {"directed": directed, "K": K, "L": L, "records": recs, "weight_type": wt, "u": u, "v": v, "diagonal": d,
+                              "case_assortative": [c for c in sl if c.startswith(cid + "a ")][0],
+                              "case_general": [c for c in sl if c.startswith(cid + "g ")][0]})
         self.cov["rule"] = ("paired real runs (directed and undirected, K 2-4, zeros allowed on the diagonal, iteration limits 1-23) started from the "
                             "same memberships through a caller-supplied initialiser type that installs the affinity exactly; distinct by "
                             "(direction, K, records, seed, diagonal)")
@@ -972,7 +1024,7 @@ class C12(Check):
                 d2["lt"] = lt
                 d2["recs"] = [(mp[s], mp[d], ws) for s, d, ws in rc.recs]
                 # the caller's label container is not always empty: reused from an earlier run, partly right, too long
-                d2["lprior"] = (mi + len(rc.recs)) % 4
+                d2["lprior"] = (mi + len(rc.recs)) % 5
                 lines.append(RunCase(**d2).line("%s.%d" % (cid, mi + 1)))
         io, mo = self.correspond("run", lines, drift=True)
         for cid, (rc, maps) in trip.items():
